@@ -1,12 +1,13 @@
 SPECIFICATION Spec
 CONSTANTS
-  MaxLen = 5
+  MaxLen = 6
   MaxClock = 2
   Rings <- MCRings
   MaxB = 2
   MaxJ = 1
   Strict = TRUE
   JumboInside = TRUE
+  ExportUnspecLen = 3
   Variant = "code"
 INVARIANTS Refinement
 ACTION_CONSTRAINT Export
